@@ -2,7 +2,7 @@
    and the character loop of the flow-scalar scanner (Model/SScalar.v) over the string input. *)
 From Coq Require Import List NArith ZArith Bool Arith Lia.
 Import ListNotations.
-Require Import Parser SBase SPrim SDir SScalar FlowFold.
+Require Import Parser SBase SPrim SDir SScalar SFetch Pipe FlowFold.
 Open Scope N_scope.
 
 Arguments N.add : simpl never.
@@ -111,3 +111,733 @@ Proof.
   induction 1 as [|d r Hd Hr IH]; intros acc; [reflexivity|].
   cbn [hex_value_from fold_left]. rewrite (as_hex_correct d Hd). rewrite IH. f_equal. f_equal. lia.
 Qed.
+
+Open Scope mon_scope.
+Arguments Nat.max : simpl never.
+
+(* ================================================================================================= *)
+(* scanner states over the string input, in a normal form closed under the primitives                 *)
+(* ================================================================================================= *)
+Definition st_with (s0 : sc strin) (chars : list N) (lk : nat) (m : marker) (w : bool) : sc strin :=
+  {| sc_in := {| si_chars := chars; si_look := lk |}; sc_mark := m; sc_tokens := sc_tokens s0;
+     sc_stream_start := sc_stream_start s0; sc_stream_end := sc_stream_end s0; sc_adjacent := sc_adjacent s0;
+     sc_ska := sc_ska s0; sc_sks := sc_sks s0; sc_indent := sc_indent s0; sc_indents := sc_indents s0;
+     sc_flow_level := sc_flow_level s0; sc_tokens_parsed := sc_tokens_parsed s0;
+     sc_token_available := sc_token_available s0; sc_lws := w; sc_fms := sc_fms s0; sc_ifms := sc_ifms s0 |}.
+
+Lemma st_with_id s : s = st_with s (si_chars (sc_in s)) (si_look (sc_in s)) (sc_mark s) (sc_lws s).
+Proof. destruct s as [[c l] m]; reflexivity. Qed.
+
+Lemma look_st n s0 c l m w : look str_ops n (st_with s0 c l m w) = Ok (tt, st_with s0 c (Nat.max l n) m w).
+Proof. reflexivity. Qed.
+Lemma peekn_st n s0 c l m w : peekn str_ops n (st_with s0 c l m w) = Ok (nth n c 0, st_with s0 c l m w).
+Proof. reflexivity. Qed.
+Lemma skip_non_blank_st s0 c l m w : skip_non_blank str_ops (st_with s0 c l m w) = Ok (tt, st_with s0 (tl c) l (adv 1 m) false).
+Proof. reflexivity. Qed.
+Lemma skip_blank_st s0 c l m w : skip_blank str_ops (st_with s0 c l m w) = Ok (tt, st_with s0 (tl c) l (adv 1 m) w).
+Proof. reflexivity. Qed.
+Lemma skip_n_non_blank_st n s0 c l m w :
+  skip_n_non_blank str_ops n (st_with s0 c l m w) = Ok (tt, st_with s0 (skipn n c) l (adv (N.of_nat n) m) false).
+Proof. reflexivity. Qed.
+Lemma get_st s0 c l m w : get (st_with s0 c l m w) = Ok (st_with s0 c l m w, st_with s0 c l m w).
+Proof. reflexivity. Qed.
+
+Lemma bind_Ok {I A B} (x : @M I A) (f : A -> @M I B) s a s' : x s = Ok (a, s') -> bind x f s = f a s'.
+Proof. intros H. unfold bind. rewrite H. reflexivity. Qed.
+Lemma bind_Err {I A B} (x : @M I A) (f : A -> @M I B) s e k : x s = Err e k -> bind x f s = Err e k.
+Proof. intros H. unfold bind. rewrite H. reflexivity. Qed.
+Lemma bind_assoc {I A B C} (x : @M I A) (f : A -> @M I B) (g : B -> @M I C) s :
+  bind (bind x f) g s = bind x (fun a => bind (f a) g) s.
+Proof. unfold bind. destruct (x s) as [[a s']| | |]; reflexivity. Qed.
+
+Ltac mstep L := rewrite (bind_Ok _ _ _ _ _ L).
+
+Lemma adv_0 m : adv 0 m = m.
+Proof. destruct m as [i ln cl]; unfold adv; cbn [m_index m_line m_col]. rewrite !N.add_0_r. reflexivity. Qed.
+Lemma adv_adv a b m : adv a (adv b m) = adv (b + a) m.
+Proof. unfold adv; cbn [m_index m_line m_col]. rewrite !N.add_assoc. reflexivity. Qed.
+Lemma adv_col a m : m_col (adv a m) = m_col m + a.
+Proof. reflexivity. Qed.
+
+(* ================================================================================================= *)
+(* T2 — read_hex and resolve_escape                                                                  *)
+(* ================================================================================================= *)
+Lemma read_hex_ok start s0 l m w : forall ds pre rest acc,
+  Forall (fun d => is_hex d = true) ds ->
+  read_hex str_ops (length ds) (length pre) acc start (st_with s0 (pre ++ ds ++ rest) l m w)
+  = Ok (fold_left (fun a d => a * 16 + as_hex d) ds acc, st_with s0 (pre ++ ds ++ rest) l m w).
+Proof.
+  induction ds as [|d r IH]; intros pre rest acc H; [reflexivity|].
+  inversion H as [|? ? Hd Hr]; subst.
+  cbn [length read_hex]. mstep (peekn_st (length pre) s0 (pre ++ (d :: r) ++ rest) l m w).
+  rewrite app_nth2 by lia. rewrite Nat.sub_diag. cbn [app nth]. rewrite Hd.
+  specialize (IH (pre ++ [d]) rest (acc * 16 + as_hex d) Hr).
+  rewrite app_length in IH. cbn [length] in IH. rewrite Nat.add_1_r in IH.
+  rewrite <- app_assoc in IH. cbn [app] in IH. exact IH.
+Qed.
+
+Lemma hex_value_digits ds v : hex_value ds = Some v -> Forall (fun d => is_hex d = true) ds.
+Proof.
+  unfold hex_value. generalize 0. revert v. induction ds as [|d r IH]; intros v a Hv; [constructor|].
+  cbn [hex_value_from] in Hv. destruct (hex_digit_value d) as [x|] eqn:E; [|discriminate].
+  constructor; [eapply is_hex_complete; exact E|eapply IH; exact Hv].
+Qed.
+Lemma hex_value_fold ds v : hex_value ds = Some v -> fold_left (fun a d => a * 16 + as_hex d) ds 0 = v.
+Proof.
+  intros Hv. pose proof (hex_fold_correct ds (hex_value_digits ds v Hv) 0) as H.
+  unfold hex_value in Hv. rewrite Hv in H. inversion H. reflexivity.
+Qed.
+(* for every list of hexadecimal digits, read_hex returns the number they denote *)
+Lemma read_hex_value start s0 l m w ds v rest :
+  hex_value ds = Some v ->
+  read_hex str_ops (length ds) 0 0 start (st_with s0 (ds ++ rest) l m w) = Ok (v, st_with s0 (ds ++ rest) l m w).
+Proof.
+  intros Hv. pose proof (read_hex_ok start s0 l m w ds [] rest 0 (hex_value_digits ds v Hv)) as R.
+  cbn [app length] in R. rewrite R. rewrite (hex_value_fold ds v Hv). reflexivity.
+Qed.
+
+Lemma is_scalar_value_spec v : is_scalar_value v = spec_scalar_value v.
+Proof.
+  unfold is_scalar_value, spec_scalar_value.
+  destruct (N.ltb_spec v 55296), (N.leb_spec v 55295), (N.ltb_spec 57343 v), (N.leb_spec 57344 v); try lia; reflexivity.
+Qed.
+
+(* a named escape: backslash, e, ...  ->  the code point of section 5.7 *)
+Lemma resolve_escape_named start s0 e v rest l m w :
+  spec_escape e = Some v ->
+  resolve_escape str_ops start (st_with s0 (92 :: e :: rest) l m w) = Ok (v, st_with s0 rest l (adv 2 m) false).
+Proof.
+  intros H. unfold resolve_escape.
+  mstep (peekn_st 1 s0 (92 :: e :: rest) l m w). cbn [nth].
+  rewrite escape_table_is_spec, H.
+  mstep (skip_n_non_blank_st 2 s0 (92 :: e :: rest) l m w). reflexivity.
+Qed.
+
+(* a numeric escape: backslash, x|u|U, exactly 2|4|8 hexadecimal digits *)
+Lemma resolve_escape_numeric start s0 e n ds v rest l m w :
+  In (e, n) spec_numeric_escapes -> length ds = n -> hex_value ds = Some v ->
+  resolve_escape str_ops start (st_with s0 (92 :: e :: ds ++ rest) l m w)
+  = if spec_scalar_value v then Ok (v, st_with s0 rest (Nat.max l n) (adv (N.of_nat n) (adv 2 m)) false)
+    else Err 32 start.
+Proof.
+  intros Hin Hlen Hv.
+  pose proof (hex_value_digits ds v Hv) as Hhex.
+  pose proof (hex_value_fold ds v Hv) as Hval.
+  unfold resolve_escape.
+  mstep (peekn_st 1 s0 (92 :: e :: ds ++ rest) l m w). cbn [nth].
+  rewrite (numeric_not_named e n Hin).
+  assert (Hcl : code_length e = n).
+  { destruct Hin as [H|[H|[H|[]]]]; inversion H; subst; reflexivity. }
+  rewrite Hcl.
+  assert (Hn0 : Nat.eqb n 0 = false).
+  { destruct Hin as [H|[H|[H|[]]]]; inversion H; subst; reflexivity. }
+  rewrite Hn0.
+  mstep (skip_n_non_blank_st 2 s0 (92 :: e :: ds ++ rest) l m w). cbn [skipn].
+  mstep (look_st n s0 (ds ++ rest) l (adv 2 m) false).
+  pose proof (read_hex_ok start s0 (Nat.max l n) (adv 2 m) false ds [] rest 0 Hhex) as R.
+  cbn [app length] in R. rewrite Hlen in R. mstep R. rewrite Hval.
+  rewrite is_scalar_value_spec. destruct (spec_scalar_value v); [|reflexivity].
+  mstep (skip_n_non_blank_st n s0 (ds ++ rest) (Nat.max l n) (adv 2 m) false).
+  rewrite <- Hlen. rewrite skipn_app, skipn_all, Nat.sub_diag. reflexivity.
+Qed.
+
+
+(* ================================================================================================= *)
+(* T3 — the character loop                                                                           *)
+(* ================================================================================================= *)
+(* the characters a quoted scalar passes through unchanged, outside blanks:
+   double quotes: anything but blank, break, NUL, the quote and the backslash;
+   single quotes: anything but blank, break, NUL (a quote is written twice) *)
+Definition ordinary (single : bool) (c : N) : bool :=
+  negb (is_blank_or_breakz c) && (single || (negb (c =? 34) && negb (c =? 92))).
+Definition quote_of (single : bool) : N := if single then 39 else 34.
+(* how a character of the text is written inside the quotes *)
+Definition enc1 (single : bool) (c : N) : list N := if single && (c =? 39) then [39; 39] else [c].
+Definition enc (single : bool) (t : list N) : list N := flat_map (enc1 single) t.
+
+Lemma enc_single_is_sq_double t : enc true t = sq_double t.
+Proof. reflexivity. Qed.
+Lemma enc_double_is_id t : enc false t = t.
+Proof. induction t as [|c t IH]; [reflexivity|]. cbn [enc flat_map enc1 andb app]. f_equal. exact IH. Qed.
+
+(* one ordinary character *)
+Lemma consume_nonws_step single c fuel acc start s0 tail l m w :
+  ordinary single c = true ->
+  consume_nonws str_ops (S fuel) single acc start (st_with s0 (enc1 single c ++ tail) l m w)
+  = consume_nonws str_ops fuel single (c :: acc) start
+      (st_with s0 tail (Nat.max l 2) (adv (N.of_nat (length (enc1 single c))) m) false).
+Proof.
+  unfold ordinary. intros H. apply andb_prop in H. destruct H as [Hb Ho].
+  apply negb_true_iff in Hb.
+  cbn [consume_nonws]. unfold enc1.
+  destruct single; cbn [andb orb] in *.
+  - destruct (N.eqb_spec c 39) as [->|Hne].
+    + cbn [app]. mstep (look_st 2 s0 (39 :: 39 :: tail) l m w). unfold peek.
+      mstep (peekn_st 0 s0 (39 :: 39 :: tail) (Nat.max l 2) m w). cbn [nth].
+      change (is_blank_or_breakz 39) with false. cbv iota.
+      mstep (peekn_st 1 s0 (39 :: 39 :: tail) (Nat.max l 2) m w). cbn [nth].
+      change (39 =? 39) with true. cbn [andb]. cbv iota.
+      mstep (skip_n_non_blank_st 2 s0 (39 :: 39 :: tail) (Nat.max l 2) m w). reflexivity.
+    + cbn [app]. mstep (look_st 2 s0 (c :: tail) l m w). unfold peek.
+      mstep (peekn_st 0 s0 (c :: tail) (Nat.max l 2) m w). cbn [nth]. rewrite Hb.
+      mstep (peekn_st 1 s0 (c :: tail) (Nat.max l 2) m w).
+      apply N.eqb_neq in Hne. rewrite Hne. cbn [andb negb]. rewrite !andb_false_r. cbn [andb]. cbv iota.
+      mstep (skip_non_blank_st s0 (c :: tail) (Nat.max l 2) m w). reflexivity.
+  - apply andb_prop in Ho. destruct Ho as [H34 H92]. apply negb_true_iff in H34, H92.
+    cbn [app]. mstep (look_st 2 s0 (c :: tail) l m w). unfold peek.
+    mstep (peekn_st 0 s0 (c :: tail) (Nat.max l 2) m w). cbn [nth]. rewrite Hb.
+    mstep (peekn_st 1 s0 (c :: tail) (Nat.max l 2) m w).
+    rewrite H34, H92. rewrite !andb_false_r. cbn [andb negb]. cbv iota.
+    mstep (skip_non_blank_st s0 (c :: tail) (Nat.max l 2) m w). reflexivity.
+Qed.
+
+(* where the loop stops: at a blank, or at the closing quote (for single quotes: a quote not followed by a quote) *)
+Definition stops (single : bool) (x : N) (rest : list N) : Prop :=
+  is_blank x = true \/ (x = quote_of single /\ (single = true -> (nth 0 rest 0 =? 39) = false)).
+
+Lemma consume_nonws_stop single x rest fuel acc start s0 l m w :
+  stops single x rest ->
+  consume_nonws str_ops (S fuel) single acc start (st_with s0 (x :: rest) l m w)
+  = Ok ((acc, false), st_with s0 (x :: rest) (Nat.max l 2) m w).
+Proof.
+  intros Hs. cbn [consume_nonws].
+  mstep (look_st 2 s0 (x :: rest) l m w). unfold peek.
+  mstep (peekn_st 0 s0 (x :: rest) (Nat.max l 2) m w). cbn [nth].
+  destruct Hs as [Hb|[-> Hq]].
+  - unfold is_blank_or_breakz. rewrite Hb. reflexivity.
+  - destruct single; cbn [quote_of].
+    + change (is_blank_or_breakz 39) with false. cbv iota.
+      mstep (peekn_st 1 s0 (39 :: rest) (Nat.max l 2) m w). cbn [nth]. rewrite (Hq eq_refl). reflexivity.
+    + change (is_blank_or_breakz 34) with false. cbv iota.
+      mstep (peekn_st 1 s0 (34 :: rest) (Nat.max l 2) m w). reflexivity.
+Qed.
+
+Lemma max_max l n : Nat.max (Nat.max l n) n = Nat.max l n.
+Proof. lia. Qed.
+
+(* a whole word, for ALL texts made of ordinary characters *)
+Lemma consume_nonws_word single : forall t fuel acc start s0 x rest l m w,
+  forallb (ordinary single) t = true -> stops single x rest -> (length t < fuel)%nat ->
+  consume_nonws str_ops fuel single acc start (st_with s0 (enc single t ++ x :: rest) l m w)
+  = Ok ((rev t ++ acc, false),
+        st_with s0 (x :: rest) (Nat.max l 2) (adv (N.of_nat (length (enc single t))) m)
+                (match t with [] => w | _ => false end)).
+Proof.
+  induction t as [|c t IH]; intros fuel acc start s0 x rest l m w Ht Hs Hf.
+  - destruct fuel as [|fuel]; [cbn in Hf; lia|]. cbn [enc flat_map app length rev].
+    rewrite consume_nonws_stop by exact Hs. change (N.of_nat 0) with 0. rewrite adv_0. reflexivity.
+  - destruct fuel as [|fuel]; [cbn in Hf; lia|]. cbn [forallb] in Ht. apply andb_prop in Ht. destruct Ht as [Hc Ht].
+    cbn [enc flat_map]. fold (enc single t). rewrite <- app_assoc.
+    rewrite consume_nonws_step by exact Hc.
+    rewrite IH; [|exact Ht|exact Hs|cbn in Hf; lia].
+    rewrite max_max, adv_adv. cbn [rev]. rewrite <- app_assoc. cbn [app].
+    rewrite app_length, Nat2N.inj_add.
+    replace (match t with [] => false | _ :: _ => false end) with false by (destruct t; reflexivity).
+    reflexivity.
+Qed.
+
+
+(* ================================================================================================= *)
+(* the loop of scan_flow_scalar, cut into its phases (checked equal to the model by conversion)        *)
+(* ================================================================================================= *)
+Section Loop.
+Variable F : nat.
+Variable single : bool.
+Variable start : marker.
+Notation ops := str_ops.
+Notation MS := (@M strin).
+
+Definition after_blanks (go : list chr -> bool -> N -> list chr -> MS (list chr)) (acc : list chr)
+           (r : bool * bool * N * list chr) : MS (list chr) :=
+  let '(lbl, lb, tb, ws) := r in
+  if lbl then
+    if negb lb then go (nls tb acc) false 0 ws
+    else if tb =? 0 then go (32 :: acc) false 0 ws
+    else go (nls tb acc) false 0 ws
+  else go (ws ++ acc) lb tb [].
+
+Definition after_word (go : list chr -> bool -> N -> list chr -> MS (list chr)) (lb : bool) (tb : N) (ws : list chr)
+           (r : list chr * bool) : MS (list chr) :=
+  let '(acc, lbl) := r in
+  c <- look_ch ops ;;
+  if (single && (c =? 39)) || (negb single && (c =? 34)) then ret acc
+  else
+    r <- flow_blanks ops F lbl lb tb ws ;; after_blanks go acc r.
+
+Definition loop_body (go : list chr -> bool -> N -> list chr -> MS (list chr)) (acc : list chr) (lb : bool) (tb : N)
+           (ws : list chr) : MS (list chr) :=
+  look ops 4 ;;;
+  s <- get ;;
+  di <- (if m_col (sc_mark s) =? 0 then next_is_document_indicator ops else ret false) ;;
+  if di then fail 70 start else
+  z <- next_is ops is_z ;;
+  if z then fail 71 start else
+  lt <- col_lt_indent ;;
+  if lt then fail 72 start else
+  r <- consume_nonws ops F single acc start ;; after_word go lb tb ws r.
+
+Fixpoint loop (f : nat) (acc : list chr) (lb : bool) (tb : N) (ws : list chr) : MS (list chr) :=
+  match f with O => oof | S f => loop_body (loop f) acc lb tb ws end.
+End Loop.
+
+Definition finish_flow_scalar (F : nat) (single : bool) (start : marker) (str : list chr) : @M strin token :=
+  skip_non_blank str_ops ;;;
+  skip_ws_to_eol str_ops F SkipYes ;;;
+  c <- peek str_ops ;; s <- get ;;
+  let fl := 0 <? sc_flow_level s in
+  if (((c =? 44) || (c =? 125) || (c =? 93)) && fl) || is_breakz c
+     || ((c =? 58) && negb fl && (m_line start =? m_line (sc_mark s))) || ((c =? 58) && fl)
+  then ret ({| sp_start := start; sp_end := sc_mark s |},
+            TScalar (if single then SingleQuoted else DoubleQuoted) (rev str))
+  else fail 74 (sc_mark s).
+
+(* the phases ARE the model's scan_flow_scalar (conversion: this breaks when the model is edited) *)
+Lemma scan_flow_scalar_phases F single :
+  scan_flow_scalar str_ops F single
+  = (start <- mark ;; skip_non_blank str_ops ;;; str <- loop F single start F [] false 0 [] ;; finish_flow_scalar F single start str).
+Proof. reflexivity. Qed.
+
+
+Lemma bind_congr {I A B} (x y : @M I A) (K : A -> @M I B) s s' : x s = y s' -> bind x K s = bind y K s'.
+Proof. intros H. unfold bind. rewrite H. reflexivity. Qed.
+
+(* a character of a single-line text: ordinary or blank *)
+Definition text_char (single : bool) (c : N) : bool := ordinary single c || is_blank c.
+
+Lemma blank_cases c : is_blank c = true -> c = 32 \/ c = 9.
+Proof. unfold is_blank. intros H. apply orb_prop in H. destruct H as [H|H]; apply N.eqb_eq in H; auto. Qed.
+Lemma enc1_blank single b : is_blank b = true -> enc1 single b = [b].
+Proof. intros H. destruct (blank_cases b H) as [->| ->]; destruct single; reflexivity. Qed.
+
+Definition plain_head (x : N) : Prop := is_blank x = false /\ is_break x = false /\ is_z x = false.
+Lemma quote_plain_head single : plain_head (quote_of single).
+Proof. destruct single; repeat split. Qed.
+Lemma ordinary_not_bbz single c : ordinary single c = true -> is_blank c = false /\ is_break c = false /\ is_z c = false.
+Proof.
+  unfold ordinary, is_blank_or_breakz, is_breakz. intros H. apply andb_prop in H. destruct H as [H _].
+  apply negb_true_iff in H. apply orb_false_elim in H. destruct H as [H1 H2]. apply orb_false_elim in H2. tauto.
+Qed.
+Lemma enc1_head single c : ordinary single c = true -> exists x r, enc1 single c = x :: r /\ plain_head x.
+Proof.
+  intros H. unfold enc1. destruct (single && (c =? 39)) eqn:E.
+  - exists 39, [39]. split; [reflexivity|]. repeat split.
+  - exists c, []. split; [reflexivity|]. exact (ordinary_not_bbz single c H).
+Qed.
+
+Lemma adv_1_n n m : adv (N.of_nat n) (adv 1 m) = adv (N.of_nat (S n)) m.
+Proof. rewrite adv_adv. f_equal. lia. Qed.
+
+Section LoopProof.
+Variable F : nat.
+Variable single : bool.
+Variable start : marker.
+Variable s0 : sc strin.
+Variable rest : list N.
+Hypothesis Hclose : single = true -> (nth 0 rest 0 =? 39) = false.
+Notation q := (quote_of single).
+Notation ops := str_ops.
+
+Definition mark_ok (m : marker) : Prop := m_col m <> 0 /\ (sc_indent s0 <= Z.of_N (m_col m))%Z.
+Lemma mark_ok_adv k m : mark_ok m -> mark_ok (adv k m).
+Proof. unfold mark_ok. rewrite adv_col. intros [H1 H2]. split; lia. Qed.
+
+Lemma stops_quote : stops single q rest.
+Proof. right. split; [reflexivity|exact Hclose]. Qed.
+
+(* entering an iteration of the loop: the three guards pass *)
+Lemma loop_body_entry go acc lb tb ws x tail l m :
+  is_z x = false -> mark_ok m ->
+  loop_body F single start go acc lb tb ws (st_with s0 (x :: tail) l m false)
+  = bind (consume_nonws ops F single acc start) (after_word F single go lb tb ws) (st_with s0 (x :: tail) (Nat.max l 4) m false).
+Proof.
+  intros Hz [Hc Hi]. unfold loop_body.
+  mstep (look_st 4 s0 (x :: tail) l m false).
+  mstep (get_st s0 (x :: tail) (Nat.max l 4) m false).
+  cbn [sc_mark st_with]. apply N.eqb_neq in Hc. rewrite Hc.
+  rewrite (bind_Ok (ret false) _ _ false _ eq_refl). cbv iota.
+  unfold next_is, peek. rewrite bind_assoc. mstep (peekn_st 0 s0 (x :: tail) (Nat.max l 4) m false).
+  cbn [nth]. rewrite Hz. rewrite (bind_Ok (ret false) _ _ false _ eq_refl). cbv iota.
+  assert (Hlt : col_lt_indent (st_with s0 (x :: tail) (Nat.max l 4) m false)
+                = Ok ((Z.of_N (m_col m) <? sc_indent s0)%Z, st_with s0 (x :: tail) (Nat.max l 4) m false)) by reflexivity.
+  mstep Hlt. replace (Z.of_N (m_col m) <? sc_indent s0)%Z with false by (symmetry; apply Z.ltb_ge; exact Hi).
+  reflexivity.
+Qed.
+
+Lemma flow_blanks_exit fb lbl lb tb ws x tail l m :
+  is_blank x = false -> is_break x = false ->
+  flow_blanks ops (S fb) lbl lb tb ws (st_with s0 (x :: tail) l m false)
+  = Ok ((lbl, lb, tb, ws), st_with s0 (x :: tail) l m false).
+Proof.
+  intros Hb Hk. cbn [flow_blanks]. unfold peek. mstep (peekn_st 0 s0 (x :: tail) l m false). cbn [nth].
+  rewrite Hb, Hk. reflexivity.
+Qed.
+
+Definition PA (t : list N) : Prop := forall fc f acc l m,
+  forallb (text_char single) t = true -> (4 <= l)%nat -> (length t < fc)%nat -> (length t <= f)%nat -> (length t < F)%nat ->
+  mark_ok m ->
+  bind (consume_nonws ops fc single acc start) (after_word F single (loop F single start f) false 0 [])
+       (st_with s0 (enc single t ++ q :: rest) l m false)
+  = Ok (rev t ++ acc, st_with s0 (q :: rest) l (adv (N.of_nat (length (enc single t))) m) false).
+
+Definition PB (b : N) (t : list N) : Prop := forall fb f acc ws l m,
+  is_blank b = true -> forallb (text_char single) t = true -> (4 <= l)%nat ->
+  (length (b :: t) < fb)%nat -> (length (b :: t) <= f)%nat -> (length (b :: t) < F)%nat -> mark_ok m ->
+  bind (flow_blanks ops fb false false 0 ws) (after_blanks (loop F single start f) acc)
+       (st_with s0 (b :: enc single t ++ q :: rest) l m false)
+  = Ok (rev t ++ b :: ws ++ acc, st_with s0 (q :: rest) l (adv (N.of_nat (S (length (enc single t)))) m) false).
+
+(* one blank consumed by flow_blanks *)
+Lemma flow_blanks_blank fb ws b tail l m (K : bool * bool * N * list chr -> @M strin (list chr)) :
+  is_blank b = true -> (4 <= l)%nat ->
+  bind (flow_blanks ops (S fb) false false 0 ws) K (st_with s0 (b :: tail) l m false)
+  = bind (flow_blanks ops fb false false 0 (b :: ws)) K (st_with s0 tail l (adv 1 m) false).
+Proof.
+  intros Hb Hl. apply bind_congr. cbn [flow_blanks]. unfold peek.
+  mstep (peekn_st 0 s0 (b :: tail) l m false). cbn [nth]. rewrite Hb.
+  mstep (skip_blank_st s0 (b :: tail) l m false). cbn [tl].
+  mstep (look_st 1 s0 tail l (adv 1 m) false). rewrite (Nat.max_l l 1) by lia. reflexivity.
+Qed.
+
+(* the blanks are over at a plain head: the next iteration starts *)
+Lemma blanks_then_iterate fb f acc ws x tail l m :
+  plain_head x -> (4 <= l)%nat -> mark_ok m ->
+  bind (flow_blanks ops (S fb) false false 0 ws) (after_blanks (loop F single start (S f)) acc)
+       (st_with s0 (x :: tail) l m false)
+  = bind (consume_nonws ops F single (ws ++ acc) start) (after_word F single (loop F single start f) false 0 [])
+         (st_with s0 (x :: tail) l m false).
+Proof.
+  intros [Hb [Hk Hz]] Hl Hm.
+  mstep (flow_blanks_exit fb false false 0 ws x tail l m Hb Hk).
+  cbn [after_blanks loop]. rewrite loop_body_entry by assumption. rewrite (Nat.max_l l 4) by lia. reflexivity.
+Qed.
+
+Lemma PA_nil : PA [].
+Proof.
+  intros fc f acc l m _ Hl Hfc _ _ Hm. destruct fc as [|fc]; [cbn in Hfc; lia|].
+  cbn [enc flat_map app length rev].
+  mstep (consume_nonws_stop single q rest fc acc start s0 l m false stops_quote).
+  rewrite (Nat.max_l l 2) by lia. cbn [after_word]. unfold look_ch, peek. rewrite bind_assoc.
+  mstep (look_st 1 s0 (q :: rest) l m false). rewrite (Nat.max_l l 1) by lia.
+  mstep (peekn_st 0 s0 (q :: rest) l m false). cbn [nth].
+  change (N.of_nat 0) with 0. rewrite adv_0.
+  destruct single; reflexivity.
+Qed.
+
+Lemma PA_PB : forall t, PA t /\ (forall b, PB b t).
+Proof.
+  induction t as [|c t [IHA IHB]].
+  - split; [exact PA_nil|].
+    intros b fb f acc ws l m Hb _ Hl Hfb Hf HF Hm.
+    destruct fb as [|fb]; [cbn in Hfb; lia|]. destruct fb as [|fb]; [cbn in Hfb; lia|].
+    destruct f as [|f]; [cbn in Hf; lia|].
+    cbn [enc flat_map app].
+    rewrite flow_blanks_blank by assumption.
+    rewrite blanks_then_iterate; [|exact (quote_plain_head single)|exact Hl|apply mark_ok_adv; exact Hm].
+    match goal with |- context [consume_nonws _ _ _ ?a _] =>
+      pose proof (PA_nil F f a l (adv 1 m) eq_refl Hl) as P end.
+    cbn [enc flat_map length rev] in P. change ([] ++ ?z) with z in P.
+    rewrite P; [|cbn in HF; lia|lia|cbn in HF; lia|apply mark_ok_adv; exact Hm].
+    change (N.of_nat 0) with 0. rewrite adv_0. reflexivity.
+  - assert (A : PA (c :: t)).
+    { intros fc f acc l m Ht Hl Hfc Hf HF Hm.
+      cbn [forallb] in Ht. apply andb_prop in Ht. destruct Ht as [Hc Ht].
+      destruct fc as [|fc]; [cbn in Hfc; lia|].
+      unfold text_char in Hc. destruct (ordinary single c) eqn:Ho.
+      - (* an ordinary character *)
+        cbn [enc flat_map]. fold (enc single t). rewrite <- app_assoc.
+        rewrite (bind_congr _ _ _ _ _ (consume_nonws_step single c fc acc start s0 _ l m false Ho)).
+        rewrite (Nat.max_l l 2) by lia.
+        rewrite IHA; [|exact Ht|exact Hl|cbn in Hfc; lia|cbn in Hf; lia|cbn in HF; lia|apply mark_ok_adv; exact Hm].
+        rewrite adv_adv, app_length, Nat2N.inj_add. cbn [rev]. rewrite <- app_assoc. reflexivity.
+      - (* a blank: the word ends, the blank loop takes over *)
+        cbn [orb] in Hc.
+        cbn [enc flat_map]. fold (enc single t). rewrite (enc1_blank single c Hc). cbn [app].
+        mstep (consume_nonws_stop single c (enc single t ++ q :: rest) fc acc start s0 l m false (or_introl Hc)).
+        rewrite (Nat.max_l l 2) by lia. cbn [after_word]. unfold look_ch, peek. rewrite bind_assoc.
+        mstep (look_st 1 s0 (c :: enc single t ++ q :: rest) l m false). rewrite (Nat.max_l l 1) by lia.
+        mstep (peekn_st 0 s0 (c :: enc single t ++ q :: rest) l m false). cbn [nth].
+        replace ((single && (c =? 39)) || (negb single && (c =? 34))) with false
+          by (destruct (blank_cases c Hc) as [->| ->]; destruct single; reflexivity).
+        etransitivity; [eapply (IHB c F f acc [] l m Hc Ht Hl); [cbn in HF |- *; lia|exact Hf|exact HF|exact Hm]|].
+        cbn [rev app length]. rewrite <- app_assoc. reflexivity. }
+    split; [exact A|].
+    intros b fb f acc ws l m Hb Ht Hl Hfb Hf HF Hm.
+    destruct fb as [|fb]; [cbn in Hfb; lia|]. destruct fb as [|fb]; [cbn in Hfb; lia|].
+    rewrite flow_blanks_blank by assumption.
+    pose proof Ht as Ht'. cbn [forallb] in Ht'. apply andb_prop in Ht'. destruct Ht' as [Hc Htt].
+    unfold text_char in Hc. destruct (ordinary single c) eqn:Ho.
+    + (* the blanks end at an ordinary character *)
+      destruct f as [|f]; [cbn in Hf; lia|].
+      destruct (enc1_head single c Ho) as [x [r [Ex Hx]]].
+      assert (Ee : enc single (c :: t) ++ q :: rest = x :: (r ++ enc single t ++ q :: rest)).
+      { cbn [enc flat_map]. fold (enc single t). rewrite Ex. cbn [app]. rewrite <- app_assoc. reflexivity. }
+      rewrite Ee. rewrite blanks_then_iterate; [|exact Hx|exact Hl|apply mark_ok_adv; exact Hm].
+      rewrite <- Ee.
+      etransitivity; [eapply (A F f _ l (adv 1 m) Ht Hl); [cbn in HF |- *; lia|cbn in Hf |- *; lia|cbn in HF |- *; lia|apply mark_ok_adv; exact Hm]|].
+      rewrite adv_1_n. cbn [app]. reflexivity.
+    + (* another blank *)
+      cbn [orb] in Hc.
+      cbn [enc flat_map]. fold (enc single t). rewrite (enc1_blank single c Hc). cbn [app].
+      etransitivity; [eapply (IHB c (S fb) f acc (b :: ws) l (adv 1 m) Hc Htt Hl); [cbn in Hfb |- *; lia|cbn in Hf |- *; lia|cbn in HF |- *; lia|apply mark_ok_adv; exact Hm]|].
+      rewrite adv_1_n. cbn [rev length app]. rewrite <- !app_assoc. reflexivity.
+Qed.
+End LoopProof.
+
+
+Lemma text_head_not_z single t rest :
+  forallb (text_char single) t = true ->
+  exists x tail, enc single t ++ quote_of single :: rest = x :: tail /\ is_z x = false.
+Proof.
+  destruct t as [|c t]; intros H.
+  - exists (quote_of single), rest. split; [reflexivity|destruct single; reflexivity].
+  - cbn [forallb] in H. apply andb_prop in H. destruct H as [Hc _]. unfold text_char in Hc.
+    cbn [enc flat_map]. fold (enc single t).
+    destruct (ordinary single c) eqn:Ho.
+    + destruct (enc1_head single c Ho) as [x [r [Ex [_ [_ Hz]]]]]. rewrite Ex. cbn [app]. eauto.
+    + cbn [orb] in Hc. rewrite (enc1_blank single c Hc). cbn [app]. exists c. eexists. split; [reflexivity|].
+      destruct (blank_cases c Hc) as [->| ->]; reflexivity.
+Qed.
+
+Lemma breakz_cases c : is_breakz c = true -> c = 10 \/ c = 13 \/ c = 0.
+Proof.
+  unfold is_breakz, is_break, is_z. intros H. apply orb_prop in H. destruct H as [H|H].
+  - apply orb_prop in H. destruct H as [H|H]; apply N.eqb_eq in H; auto.
+  - apply N.eqb_eq in H. auto.
+Qed.
+
+Definition style_of (single : bool) : style := if single then SingleQuoted else DoubleQuoted.
+
+(* the closing quote, then end of line / end of input *)
+Lemma finish_at_eol F single start s0 rest l m str :
+  (0 < F)%nat -> is_breakz (nth 0 rest 0) = true ->
+  finish_flow_scalar F single start str (st_with s0 (quote_of single :: rest) l m false)
+  = Ok (({| sp_start := start; sp_end := adv 1 m |}, TScalar (style_of single) (rev str)),
+        st_with s0 rest (Nat.max l 1) (adv 1 m) false).
+Proof.
+  intros HF Hz. destruct F as [|F']; [lia|].
+  unfold finish_flow_scalar.
+  mstep (skip_non_blank_st s0 (quote_of single :: rest) l m false). cbn [tl].
+  unfold skip_ws_to_eol. rewrite bind_assoc.
+  assert (E : in_skip_ws_to_eol str_ops (S F') SkipYes false false 0 (st_with s0 rest l (adv 1 m) false)
+              = Ok ((0, Some (false, false)), st_with s0 rest (Nat.max l 1) (adv 1 m) false)).
+  { cbn [in_skip_ws_to_eol]. unfold look_ch, peek. rewrite bind_assoc.
+    mstep (look_st 1 s0 rest l (adv 1 m) false).
+    mstep (peekn_st 0 s0 rest (Nat.max l 1) (adv 1 m) false).
+    destruct (breakz_cases _ Hz) as [E|[E|E]]; rewrite E; reflexivity. }
+  mstep E. cbn [fst snd]. rewrite bind_assoc.
+  assert (E2 : adv_mark 0 (st_with s0 rest (Nat.max l 1) (adv 1 m) false)
+               = Ok (tt, st_with s0 rest (Nat.max l 1) (adv 1 m) false)).
+  { unfold adv_mark, modify. cbn [sc_mark st_with]. rewrite adv_0. reflexivity. }
+  mstep E2. rewrite (bind_Ok (ret (false, false)) _ _ (false, false) _ eq_refl).
+  unfold peek. mstep (peekn_st 0 s0 rest (Nat.max l 1) (adv 1 m) false).
+  mstep (get_st s0 rest (Nat.max l 1) (adv 1 m) false).
+  cbn [sc_flow_level sc_mark st_with].
+  destruct (breakz_cases _ Hz) as [E3|[E3|E3]]; rewrite E3; destruct single; reflexivity.
+Qed.
+
+(* THE SINGLE-LINE THEOREM (states in normal form) *)
+Lemma scan_flow_scalar_single_line_st F single s0 t rest l m w :
+  forallb (text_char single) t = true -> (length t < F)%nat ->
+  (single = true -> (nth 0 rest 0 =? 39) = false) ->
+  is_breakz (nth 0 rest 0) = true ->
+  (sc_indent s0 <= Z.of_N (m_col m) + 1)%Z ->
+  scan_flow_scalar str_ops F single (st_with s0 (quote_of single :: enc single t ++ quote_of single :: rest) l m w)
+  = Ok (({| sp_start := m; sp_end := adv (N.of_nat (length (enc single t)) + 2) m |}, TScalar (style_of single) t),
+        st_with s0 rest (Nat.max l 4) (adv (N.of_nat (length (enc single t)) + 2) m) false).
+Proof.
+  intros Ht HF Hclose Hz Hind.
+  rewrite scan_flow_scalar_phases.
+  assert (Em : mark (st_with s0 (quote_of single :: enc single t ++ quote_of single :: rest) l m w)
+               = Ok (m, st_with s0 (quote_of single :: enc single t ++ quote_of single :: rest) l m w)) by reflexivity.
+  mstep Em.
+  mstep (skip_non_blank_st s0 (quote_of single :: enc single t ++ quote_of single :: rest) l m w). cbn [tl].
+  destruct F as [|F']; [lia|].
+  assert (Hm : mark_ok s0 (adv 1 m)).
+  { unfold mark_ok. rewrite adv_col. split; lia. }
+  destruct (text_head_not_z single t rest Ht) as [x [tail [Ex Hx]]].
+  assert (EL : loop (S F') single m (S F') [] false 0 [] (st_with s0 (enc single t ++ quote_of single :: rest) l (adv 1 m) false)
+               = Ok (rev t ++ [], st_with s0 (quote_of single :: rest) (Nat.max l 4)
+                                          (adv (N.of_nat (length (enc single t))) (adv 1 m)) false)).
+  { cbn [loop]. rewrite Ex. rewrite loop_body_entry by assumption. rewrite <- Ex.
+    destruct (PA_PB (S F') single m s0 rest Hclose t) as [A _].
+    eapply A; [exact Ht|lia|exact HF|lia|exact HF|exact Hm]. }
+  mstep EL.
+  rewrite finish_at_eol by (lia || exact Hz).
+  rewrite app_nil_r, rev_involutive.
+  replace (Nat.max (Nat.max l 4) 1) with (Nat.max l 4) by lia.
+  replace (adv 1 (adv (N.of_nat (length (enc single t))) (adv 1 m))) with (adv (N.of_nat (length (enc single t)) + 2) m)
+    by (rewrite !adv_adv; f_equal; lia).
+  reflexivity.
+Qed.
+
+(* ... and for an arbitrary scanner state *)
+Theorem scan_flow_scalar_single_line F single (s : sc strin) t rest :
+  forallb (text_char single) t = true -> (length t < F)%nat ->
+  si_chars (sc_in s) = quote_of single :: enc single t ++ quote_of single :: rest ->
+  (single = true -> (nth 0 rest 0 =? 39) = false) ->
+  is_breakz (nth 0 rest 0) = true ->
+  (sc_indent s <= Z.of_N (m_col (sc_mark s)) + 1)%Z ->
+  exists s',
+    scan_flow_scalar str_ops F single s
+    = Ok (({| sp_start := sc_mark s; sp_end := adv (N.of_nat (length (enc single t)) + 2) (sc_mark s) |},
+           TScalar (style_of single) t), s')
+    /\ si_chars (sc_in s') = rest.
+Proof.
+  intros Ht HF Hc Hclose Hz Hind.
+  pose proof (scan_flow_scalar_single_line_st F single s t rest (si_look (sc_in s)) (sc_mark s) (sc_lws s)
+                Ht HF Hclose Hz Hind) as H.
+  rewrite <- Hc in H. rewrite <- (st_with_id s) in H. rewrite H.
+  eexists. split; reflexivity.
+Qed.
+
+
+(* ================================================================================================= *)
+(* a double-quoted word with escapes: literal characters, named escapes, numeric escapes             *)
+(* ================================================================================================= *)
+Definition item_ok (i : dq_item) : Prop :=
+  match i with
+  | ILit c => ordinary false c = true
+  | INamed e v => spec_escape e = Some v
+  | IHex e ds v => In (e, length ds) spec_numeric_escapes /\ hex_value ds = Some v /\ spec_scalar_value v = true
+  end.
+Lemma named_not_break e v : spec_escape e = Some v -> is_break e = false.
+Proof.
+  intros H. destruct (is_break e) eqn:E; [|reflexivity]. exfalso.
+  unfold is_break in E. apply orb_prop in E. destruct E as [E|E]; apply N.eqb_eq in E; subst; vm_compute in H; discriminate.
+Qed.
+Lemma numeric_not_break e n : In (e, n) spec_numeric_escapes -> is_break e = false.
+Proof. intros [H|[H|[H|[]]]]; inversion H; reflexivity. Qed.
+
+(* the backslash case of consume_nonws, when what follows is not a break *)
+Lemma consume_nonws_escape fuel acc start s0 e tail l m w :
+  is_break e = false ->
+  consume_nonws str_ops (S fuel) false acc start (st_with s0 (92 :: e :: tail) l m w)
+  = bind (resolve_escape str_ops start) (fun r => consume_nonws str_ops fuel false (r :: acc) start)
+         (st_with s0 (92 :: e :: tail) (Nat.max l 2) m w).
+Proof.
+  intros He. cbn [consume_nonws].
+  mstep (look_st 2 s0 (92 :: e :: tail) l m w). unfold peek.
+  mstep (peekn_st 0 s0 (92 :: e :: tail) (Nat.max l 2) m w). cbn [nth].
+  change (is_blank_or_breakz 92) with false. cbv iota.
+  mstep (peekn_st 1 s0 (92 :: e :: tail) (Nat.max l 2) m w). cbn [nth].
+  rewrite He. reflexivity.
+Qed.
+
+Lemma consume_nonws_items : forall items fuel acc start s0 x rest l m w,
+  Forall item_ok items -> stops false x rest -> (length items < fuel)%nat ->
+  exists l' w',
+    consume_nonws str_ops fuel false acc start (st_with s0 (flat_map item_src items ++ x :: rest) l m w)
+    = Ok ((rev (map item_val items) ++ acc, false),
+          st_with s0 (x :: rest) l' (adv (N.of_nat (length (flat_map item_src items))) m) w').
+Proof.
+  induction items as [|i items IH]; intros fuel acc start s0 x rest l m w Hok Hs Hf.
+  - destruct fuel as [|fuel]; [cbn in Hf; lia|]. cbn [flat_map app length map rev].
+    rewrite consume_nonws_stop by exact Hs. change (N.of_nat 0) with 0. rewrite adv_0. eauto.
+  - destruct fuel as [|fuel]; [cbn in Hf; lia|]. inversion Hok as [|? ? Hi Hr]; subst.
+    cbn [flat_map map rev]. rewrite <- app_assoc.
+    assert (Hf' : (length items < fuel)%nat) by (cbn in Hf; lia).
+    destruct i as [c|e v|e ds v]; cbn [item_ok item_src item_val] in *.
+    + pose proof (consume_nonws_step false c fuel acc start s0 (flat_map item_src items ++ x :: rest) l m w Hi) as S1.
+      change (enc1 false c) with [c] in S1. rewrite S1.
+      destruct (IH fuel (c :: acc) start s0 x rest (Nat.max l 2) (adv (N.of_nat (length [c])) m) false Hr Hs Hf') as [l' [w' E]].
+      exists l', w'. etransitivity; [exact E|]. rewrite adv_adv, app_length, Nat2N.inj_add. rewrite <- app_assoc. reflexivity.
+    + cbn [app]. rewrite consume_nonws_escape by (eapply named_not_break; exact Hi).
+      mstep (resolve_escape_named start s0 e v (flat_map item_src items ++ x :: rest) (Nat.max l 2) m w Hi). cbv beta.
+      destruct (IH fuel (v :: acc) start s0 x rest (Nat.max l 2) (adv 2 m) false Hr Hs Hf') as [l' [w' E]].
+      exists l', w'. etransitivity; [exact E|]. rewrite adv_adv. rewrite <- app_assoc.
+      replace (N.of_nat (length (92 :: e :: flat_map item_src items))) with (2 + N.of_nat (length (flat_map item_src items)))
+        by (cbn [length]; lia).
+      reflexivity.
+    + destruct Hi as [Hin [Hv Hsv]].
+      cbn [app]. rewrite consume_nonws_escape by (eapply numeric_not_break; exact Hin).
+      rewrite <- app_assoc.
+      pose proof (resolve_escape_numeric start s0 e (length ds) ds v (flat_map item_src items ++ x :: rest)
+                    (Nat.max l 2) m w Hin eq_refl Hv) as R.
+      rewrite Hsv in R. mstep R. cbv beta.
+      destruct (IH fuel (v :: acc) start s0 x rest (Nat.max (Nat.max l 2) (length ds)) (adv (N.of_nat (length ds)) (adv 2 m)) false Hr Hs Hf')
+        as [l' [w' E]].
+      exists l', w'. etransitivity; [exact E|]. rewrite !adv_adv.
+      replace (N.of_nat (length (92 :: e :: ds ++ flat_map item_src items)))
+        with (2 + N.of_nat (length ds) + N.of_nat (length (flat_map item_src items)))
+        by (cbn [length]; rewrite app_length; lia).
+      rewrite N.add_assoc. reflexivity.
+Qed.
+
+(* ================================================================================================= *)
+(* the complete statement (scanner level: the scanner state abstracts the syntactic context), and    *)
+(* what is known about it                                                                            *)
+(* ================================================================================================= *)
+(* what may follow a quoted scalar: blanks, then end of line / input, a comment (after a blank), in a flow
+   collection one of , ] } and a colon (a key: in block context only when the scalar is on one line) *)
+Definition quoted_follower_ok (flow multi : bool) (rest : list N) : bool :=
+  let r := drop_leading rest in
+  let c := hd 0 r in
+  is_breakz c || (flow && ((c =? 44) || (c =? 93) || (c =? 125))) || ((c =? 58) && (flow || negb multi))
+  || ((c =? 35) && negb (Nat.eqb (length r) (length rest))).
+
+Definition C04_quoted_full : Prop :=
+  forall (F : nat) (single : bool) (n : nat) (first : list dq_item) (more : list (brk_layout * list dq_item))
+         (rest : list N) (s : sc strin),
+    (if single then sq_layout_wf n first more else dq_layout_wf n first more) = true ->
+    let src := if single then sq_render first more else dq_render first more in
+    si_chars (sc_in s) = quote_of single :: src ++ quote_of single :: rest ->
+    (single = true -> (nth 0 rest 0 =? 39) = false) ->
+    quoted_follower_ok (0 <? sc_flow_level s) (match more with [] => false | _ => true end) rest = true ->
+    (sc_indent s < Z.of_nat n)%Z ->                               (* continuation lines are indented deeper than the block *)
+    (sc_indent s <= Z.of_N (m_col (sc_mark s)) + 1)%Z ->
+    (m_col (sc_mark s) <> 0 \/ more = [])%type ->                 (* (a quote in column 0 is followed by no document marker) *)
+    (2 * length src + 10 <= F)%nat ->
+    exists sp s',
+      scan_flow_scalar str_ops F single s = Ok ((sp, TScalar (style_of single) (dq_text first more)), s')
+      /\ sp_start sp = sc_mark s.
+
+(* what ends a plain scalar: end of input; a break followed by nothing or by a line that is not indented deeper
+   than the enclosing block; a comment after a blank; in a flow collection , ] }; a colon + blank *)
+Definition plain_follower_ok (flow : bool) (indent : Z) (rest : list N) : bool :=
+  let r := drop_leading rest in
+  match r with
+  | [] => true
+  | c :: r' =>
+      (is_break c && match r' with
+                     | [] => true
+                     | _ => (Z.of_nat (leading_spaces r') <=? indent)%Z
+                            && negb (is_blank_or_breakz (nth (leading_spaces r') r' 0))
+                     end)
+      || ((c =? 35) && negb (Nat.eqb (length r) (length rest)))
+      || (flow && c_flow_indicator c)
+      || ((c =? 58) && (is_sp (hd 0 r') || is_breakz (hd 0 r') || (flow && c_flow_indicator (hd 0 r'))))
+  end.
+
+Definition C04_plain_full : Prop :=
+  forall (F n : nat) (first : list N) (more : list (brk_layout * list N)) (rest : list N) (s : sc strin),
+    plain_layout_wf (0 <? sc_flow_level s) n first more = true ->
+    si_chars (sc_in s) = plain_render first more ++ rest ->
+    plain_follower_ok (0 <? sc_flow_level s) (sc_indent s) rest = true ->
+    (sc_indent s < Z.of_nat n)%Z ->
+    (sc_indent s < Z.of_N (m_col (sc_mark s)))%Z ->
+    (2 * length (plain_render first more) + 10 <= F)%nat ->
+    exists sp s',
+      scan_plain_scalar str_ops F s = Ok ((sp, TScalar Plain (plain_text first more)), s')
+      /\ sp_start sp = sc_mark s.
+
+(* The plain half is FALSE for the current code: an indented continuation line that reads `---` ends the scalar
+   (scan_plain_scalar tests next_is_document_indicator whenever only blanks were seen since the last break,
+   whatever the column).  Witness: the two lines  a / _---  (n = 1). *)
+Definition plain_refutation_first : list N := [97].
+Definition plain_refutation_more : list (brk_layout * list N) :=
+  [({| bl_escaped := false; bl_pad := []; bl_empties := []; bl_indent := [32] |}, [45; 45; 45])].
+
+Lemma C04_plain_full_is_false : ~ C04_plain_full.
+Proof.
+  intros H.
+  specialize (H 40%nat 1%nat plain_refutation_first plain_refutation_more [10]
+                (init_sc {| si_chars := [97; 10; 32; 45; 45; 45; 10]; si_look := 0 |})).
+  destruct H as [sp [s' [E _]]]; try (vm_compute; reflexivity); try (vm_compute; congruence).
+  - cbn. lia.
+  - vm_compute in E. discriminate E.
+Qed.
+
+(* scalar events of a pipeline run (for the examples) *)
+Definition scalars_of (r : list (event * span) * pend) : list (style * list N) * bool :=
+  (flat_map (fun e => match fst e with EScalar v st _ _ => [(st, v)] | _ => [] end) (fst r),
+   match snd r with PDone => true | _ => false end).
